@@ -7,7 +7,9 @@ Small-step model of
 * `ActorProperties::notify_stop_listener` (`notify_waiters` then `notify_one`);
 * `ActorLifecycleGuard::cleanup` (`actor.rs`) preceded by the processing loop's own
   `set_status(Stopping)` and `post_stop`;
-* `ActorProperties::wait`: create `Notified`, then read the status, then await.
+* `ActorProperties::wait`: create `Notified`, then read the status, then await — three separate
+  steps: the window between the status read and the first poll of `Notified` (in which the exiter
+  may publish `Stopped`, `notify_waiters` and `notify_one`) is part of the schedule space.
 
 One model step = one schedule point `crate::verif::point("…")` (names next to the program
 counters). `tokio::sync::Notify` is modelled by its documented contract: `notified()` snapshots
@@ -76,6 +78,9 @@ inductive WPc where
   | start
   /-- `wait.created` : `Notified` exists (generation `snap`), status not read yet -/
   | created (snap : Nat)
+  /-- `wait.checked` : the status has been read and was not `Stopped`; `notified.await` has not
+  been polled yet -/
+  | checked (snap : Nat)
   /-- polled once, registered in the waiter list (harness point `wait.poll`) -/
   | registered
   /-- `wait()` returned; `ok` = at that moment status was `Stopped` and the cleanup was complete -/
@@ -270,9 +275,13 @@ def stepWaiter (sh : Sh) (fl : Bool) (w : Waiter) : Sh × Waiter :=
   match w.pc with
   | .start => (sh, { w with pc := .created sh.gen })
   | .created snap =>
-    -- `if self.get_status() != Stopped { notified.await }`
+    -- `if self.get_status() != Stopped { … }`: the status load alone
     if sh.status == stStopped then (sh, { w with pc := .returned fl })
-    else if sh.gen != snap then (sh, { w with pc := .returned fl })
+    else (sh, { w with pc := .checked snap })
+  | .checked snap =>
+    -- first poll of `notified.await`: completes if the `notify_waiters` generation moved since
+    -- `notified()` or by consuming the stored permit; registers otherwise
+    if sh.gen != snap then (sh, { w with pc := .returned fl })
     else if sh.permit then ({ sh with permit := false }, { w with pc := .returned fl })
     else (sh, { w with pc := .registered })
   | .registered =>
@@ -360,7 +369,8 @@ def EPc.point : EPc → String
   | .unlink => "cleanup.unlink" | .stopped => "cleanup.stopped" | .done => "done"
 
 def WPc.point : WPc → String
-  | .start => "wait.poll" | .created _ => "wait.created" | .registered => "wait.poll"
+  | .start => "wait.poll" | .created _ => "wait.created" | .checked _ => "wait.checked"
+  | .registered => "wait.poll"
   | .returned _ => "done" | .abandoned => "done"
 
 /-- The exiter has executed `notify_one` of the final `set_status(Stopped)`. -/
@@ -371,7 +381,7 @@ def Exiter.finished (ex : Exiter) : Bool :=
 
 /-- Steps a waiter still needs: the measure of the no-lost-wake-up theorem. -/
 def WPc.rank : WPc → Nat
-  | .start => 3 | .created _ => 2 | .registered => 1 | .returned _ => 0 | .abandoned => 0
+  | .start => 4 | .created _ => 3 | .checked _ => 2 | .registered => 1 | .returned _ => 0 | .abandoned => 0
 
 /-- all setters only publish values below `Stopping` (what the code base does: `Starting`,
 `Running`; `drain` publishes `Draining` by its own `fetch_update`) -/
